@@ -1,7 +1,9 @@
 """C06 driver (runs inside the engine child): renders one operator case to JavaScript and records
 what the engine did.  It defines no space and computes no expectation.
 
-case = {id, f, op, tgt, pre, a, b, c, intrep, tree}
+case = {id, f, op, tgt, pre, a, b, c, la, lb, lc, intrep, tree}
+  la / lb / lc: code units of the source text that stands for the operand ([] = the operand is handed over with ctx.set);
+  tree leaves likewise carry lt
   f = "bin"  : __a op __b
       "un"   : op __a                       (tgt: "global" | "local")
       "upd"  : ++t / t++ / --t / t--        (tgt: one of TARGETS; pre = prefix?)
@@ -40,9 +42,10 @@ TARGETS = {
 }
 
 
-def render_target(tgt, make_expr):
+def render_target(tgt, make_expr, A="__a"):
     """JS program applying make_expr(target_text) to the target form and reporting (result, target afterwards)."""
     pro, texpr, rd, wrap = TARGETS[tgt]
+    pro = pro.replace("__a", A)
     if tgt == "free":
         body = pro + " var f = function(){ return (" + make_expr("x") + "); }; var r = f(); __out(r, " + rd + ");"
     else:
@@ -52,9 +55,18 @@ def render_target(tgt, make_expr):
     return body
 
 
+def written(units):
+    """an operand written as source text (a spelling chosen by the specification); unary minus in front of a numeric
+    literal is kept apart from the operator next to it"""
+    txt = wire.from_units(units)
+    return "(" + txt + ")" if txt.startswith("-") else txt
+
+
 def render_tree(t, leaves):
     k = t["t"]
     if k == "lit":
+        if t.get("lt"):
+            return written(t["lt"])
         leaves.append(t)
         return "__v%d" % (len(leaves) - 1)
     if k == "un":
@@ -69,22 +81,25 @@ def render_tree(t, leaves):
 def render(case, setv):
     f, op = case["f"], case.get("op", "")
     jsop = JS_OP.get(op, op)
+    A = written(case["la"]) if case.get("la") else "__a"
+    B = written(case["lb"]) if case.get("lb") else "__b"
+    C = written(case["lc"]) if case.get("lc") else "__c"
     if f == "bin":
-        return "__out((__a " + jsop + " __b), 0);"
+        return "__out((" + A + " " + jsop + " " + B + "), 0);"
     if f == "un":
         if case.get("tgt") == "local":
-            return "(function(){ var x = __a; __out((" + jsop + " x), 0); })();"
-        return "__out((" + jsop + " __a), 0);"
+            return "(function(){ var x = " + A + "; __out((" + jsop + " x), 0); })();"
+        return "__out((" + jsop + " " + A + "), 0);"
     if f == "upd":
         if case["pre"]:
-            return render_target(case["tgt"], lambda t: op + t)
-        return render_target(case["tgt"], lambda t: t + op)
+            return render_target(case["tgt"], lambda t: op + t, A)
+        return render_target(case["tgt"], lambda t: t + op, A)
     if f == "cmpd":
-        return render_target(case["tgt"], lambda t: t + " " + op + "= __b")
+        return render_target(case["tgt"], lambda t: t + " " + op + "= " + B, A)
     if f == "asg":
-        return render_target(case["tgt"], lambda t: t + " = __b")
+        return render_target(case["tgt"], lambda t: t + " = " + B, A)
     if f == "cond":
-        return "__out((__c ? __a : __b), 0);"
+        return "__out((" + C + " ? " + A + " : " + B + "), 0);"
     if f == "tree":
         leaves = []
         src = render_tree(case["tree"], leaves)
@@ -103,7 +118,7 @@ def run_case(case, api):
     def setv(name, w, ir):
         ctx.set(name, wire_to_py(w, ir))
     for nm in ("a", "b", "c"):
-        if nm in case and case[nm] is not None:
+        if nm in case and case[nm] is not None and not case.get("l" + nm):
             setv("__" + nm, case[nm], intrep)
     src = render(case, setv)
     out = api.eval_outcome(ctx, src, wall=case.get("wall", 5.0), cap=200_000)
